@@ -13,6 +13,7 @@ EXTENDS OscWire, Json, CSV, IOUtils
 CONSTANTS Mode, Depth, MaxLen, Alphabet, Prefix
 VARIABLES buf, d
 A(t, v) == [t |-> t, v |-> v, z |-> 0]
+M(addr, args) == [k |-> "m", addr |-> addr, args |-> args]
 Pool == { Encode(<<47>>, <<>>),
           Encode(<<47, 97>>, <<A("i", <<0, 1>>)>>),
           Encode(<<47>>, <<A("b", <<>>), A("i", <<0, 7>>)>>),
@@ -21,7 +22,11 @@ Pool == { Encode(<<47>>, <<>>),
           Encode(<<47, 97, 98, 99>>, <<A("s", <<120, 121, 122>>)>>),
           Encode(<<47>>, <<A("b", <<5>>), A("s", <<>>), A("T", <<>>)>>),
           Encode(<<47>>, <<A("s", <<>>), A("i", <<0, 1>>)>>),
-          Encode(<<47>>, <<A("h", <<1, 2, 3, 4>>), A("[", <<>>), A("S", <<65>>), A("]", <<>>)>>) }
+          Encode(<<47>>, <<A("h", <<1, 2, 3, 4>>), A("[", <<>>), A("S", <<65>>), A("]", <<>>)>>),
+          \* bundles: the length function walks their element size fields; no bundle is a valid MESSAGE, so only the base clauses apply
+          EncBundle(<<0, 0, 0, 1>>, <<>>),
+          EncBundle(<<0, 0, 0, 1>>, << M(<<47, 97>>, <<A("i", <<0, 1>>)>>) >>),
+          EncBundle(<<0, 0, 0, 1>>, << M(<<47>>, <<>>), [k |-> "b", tt |-> <<0, 0, 0, 2>>, elems |-> << M(<<47, 98>>, <<>>) >>] >>) }
 ByteVals == {0, 1, 44, 47, 91, 98, 105, 115, 127, 128, 255}
 WordVals == { <<0, 255, 255, 255>>, <<0, 0, 0, 0>>, <<0, 0, 0, 1>>, <<0, 0, 0, 3>>, <<0, 0, 0, 4>>, <<0, 0, 0, 8>>, <<127, 255, 255, 255>>, <<128, 0, 0, 0>>,
               <<255, 255, 255, 248>>, <<255, 255, 255, 252>>, <<255, 255, 255, 253>>, <<255, 255, 255, 255>> }
